@@ -180,10 +180,459 @@ def normalise_class(cls_node):
 
 
 def normalise_module(tree):
-    done = []
+    done = ["record " + r for r in denormalise_records(tree)] + denormalise_enums(tree)
+    k = normalise_while_true(tree)
+    if k:
+        done.append("%d while-True loops" % k)
     for n in ast.walk(tree):
         if isinstance(n, ast.ClassDef):
             done += ["%s.%s" % (n.name, h) for h in normalise_class(n)]
+    if done:
+        ast.fix_missing_locations(tree)
+    return done
+
+
+# ---------------------------------------------------------------------------------------------------------------------
+# Records: state gathered into one private NamedTuple / dataclass attribute is read as the attributes it replaced
+#
+#     class _Access(NamedTuple): token: ... = None; channel: ... = None
+#     self._access = _Access()                              ->   self._trio_token = None; self._submit_tasks = None
+#     self._access = self._access._replace(token=t)         ->   self._trio_token = t
+#     self._link.token = t          (dataclass)             ->   self._trio_token = t
+#     self._access.token  /  link = self._link; link.token  ->   self._trio_token
+#     token, channel = self._access                         ->   token, channel = self._trio_token, self._submit_tasks
+#     @property def _trio_token(self): return self._access.token      (dropped: it is the plain attribute again)
+#
+# A field the class publishes as the property `p: return self.<rec>.<field>` becomes the attribute p, any other field
+# the attribute <rec>__<field>.  Applied only when EVERY use of self.<rec> in the module has one of the shapes above;
+# the record object itself (its identity, one-snapshot reads) is not something any rule talks about.
+
+
+def _record_classes(tree):
+    out = {}
+    for st in tree.body:
+        if not isinstance(st, ast.ClassDef):
+            continue
+        named = any((isinstance(b, ast.Name) and b.id == "NamedTuple") or (isinstance(b, ast.Attribute) and b.attr == "NamedTuple") for b in st.bases)
+        data = False
+        for d in st.decorator_list:
+            f = d.func if isinstance(d, ast.Call) else d
+            if (isinstance(f, ast.Name) and f.id == "dataclass") or (isinstance(f, ast.Attribute) and f.attr == "dataclass"):
+                data = True
+        if not (named or data):
+            # a tiny holder class: only __slots__ and an __init__(self) that sets each field to a constant
+            if st.bases or st.decorator_list or not st.name.startswith("_"):
+                continue
+            init = None
+            plain = True
+            for b in st.body:
+                if isinstance(b, ast.FunctionDef) and b.name == "__init__":
+                    init = b
+                elif isinstance(b, ast.Assign) and len(b.targets) == 1 and isinstance(b.targets[0], ast.Name) and b.targets[0].id == "__slots__":
+                    continue
+                elif isinstance(b, ast.Expr) and isinstance(b.value, ast.Constant):
+                    continue
+                else:
+                    plain = False
+            a = init.args if init is not None else None
+            if not plain or init is None or len(a.args) != 1 or a.vararg or a.kwarg or a.kwonlyargs:
+                continue
+            flds = []
+            for b in init.body:
+                tg = b.targets[0] if isinstance(b, ast.Assign) and len(b.targets) == 1 else b.target if isinstance(b, ast.AnnAssign) else None
+                v = getattr(b, "value", None)
+                if tg is not None and _is_self_attr(tg) and isinstance(v, ast.Constant):
+                    flds.append((tg.attr, v))
+                elif isinstance(b, ast.Expr) and isinstance(b.value, ast.Constant):
+                    continue
+                else:
+                    flds = None
+                    break
+            if flds:
+                out[st.name] = {"fields": flds, "named": False}
+            continue
+        fields = []
+        ok = True
+        for b in st.body:
+            if isinstance(b, ast.AnnAssign) and isinstance(b.target, ast.Name):
+                if b.value is not None and not isinstance(b.value, ast.Constant):
+                    ok = False
+                fields.append((b.target.id, b.value))
+            elif isinstance(b, ast.Expr) and isinstance(b.value, ast.Constant):
+                continue
+            elif isinstance(b, ast.Pass):
+                continue
+            else:
+                ok = False  # methods, plain assignments: not a pure record
+        if ok and fields:
+            out[st.name] = {"fields": fields, "named": named}
+    return out
+
+
+def _is_self_attr(n, name=None):
+    return isinstance(n, ast.Attribute) and isinstance(n.value, ast.Name) and n.value.id == "self" and (name is None or n.attr == name)
+
+
+def _denormalise_class(cls_node, recs, tree):
+    done = []
+    # candidates: self.X = R(...)
+    cands = {}
+    for n in ast.walk(cls_node):
+        if isinstance(n, ast.Assign) and len(n.targets) == 1 and _is_self_attr(n.targets[0]) and isinstance(n.value, ast.Call) and isinstance(n.value.func, ast.Name) and n.value.func.id in recs:
+            cands.setdefault(n.targets[0].attr, set()).add(n.value.func.id)
+    for X, rnames in cands.items():
+        if len(rnames) != 1 or not X.startswith("_"):
+            continue
+        R = recs[next(iter(rnames))]
+        fnames = [f for f, _d in R["fields"]]
+        # nobody outside the class touches the record
+        inside = {id(n) for n in ast.walk(cls_node)}
+        if any(isinstance(n, ast.Attribute) and n.attr == X and id(n) not in inside for n in ast.walk(tree)):
+            continue
+        # views
+        views, droppable = {}, []
+        bail = False
+        for st in cls_node.body:
+            if not isinstance(st, ast.FunctionDef):
+                continue
+            decos = [d for d in st.decorator_list]
+            body = [b for b in st.body if not (isinstance(b, ast.Expr) and isinstance(b.value, ast.Constant))]
+            if any(isinstance(d, ast.Name) and d.id == "property" for d in decos) and len(body) == 1 and isinstance(body[0], ast.Return) and isinstance(body[0].value, ast.Attribute) and _is_self_attr(body[0].value.value, X) and body[0].value.attr in fnames:
+                views.setdefault(body[0].value.attr, st.name)
+                droppable.append(st)
+            elif any(isinstance(d, ast.Attribute) and d.attr == "setter" for d in decos) and len(body) == 1 and len(st.args.args) == 2:
+                v = st.args.args[1].arg
+                b = body[0]
+                f = None
+                if isinstance(b, ast.Assign) and len(b.targets) == 1 and _is_self_attr(b.targets[0], X) and isinstance(b.value, ast.Call) and isinstance(b.value.func, ast.Attribute) and b.value.func.attr == "_replace" and _is_self_attr(b.value.func.value, X) and len(b.value.keywords) == 1 and not b.value.args and isinstance(b.value.keywords[0].value, ast.Name) and b.value.keywords[0].value.id == v:
+                    f = b.value.keywords[0].arg
+                elif isinstance(b, ast.Assign) and len(b.targets) == 1 and isinstance(b.targets[0], ast.Attribute) and _is_self_attr(b.targets[0].value, X) and isinstance(b.value, ast.Name) and b.value.id == v:
+                    f = b.targets[0].attr
+                if f is not None and f in fnames:
+                    droppable.append(st)
+        # ... or as a class-level  p = property(lambda self: self.<rec>.<field>)
+        for st in cls_node.body:
+            if isinstance(st, ast.Assign) and len(st.targets) == 1 and isinstance(st.targets[0], ast.Name) and isinstance(st.value, ast.Call) and isinstance(st.value.func, ast.Name) and st.value.func.id == "property" and len(st.value.args) == 1 and not st.value.keywords and isinstance(st.value.args[0], ast.Lambda):
+                lam = st.value.args[0]
+                if len(lam.args.args) == 1 and isinstance(lam.body, ast.Attribute) and isinstance(lam.body.value, ast.Attribute) and isinstance(lam.body.value.value, ast.Name) and lam.body.value.value.id == lam.args.args[0].arg and lam.body.value.attr == X and lam.body.attr in fnames:
+                    views.setdefault(lam.body.attr, st.targets[0].id)
+                    droppable.append(st)
+        name_of = {f: views.get(f, "%s__%s" % (X, f)) for f in fnames}
+        # a view setter is only dropped together with the getter of the same name and field
+        getter_names = set(views.values())
+        droppable = [st for st in droppable if (st.name if isinstance(st, ast.FunctionDef) else st.targets[0].id) in getter_names]
+        drop_ids = {id(n) for st in droppable for n in ast.walk(st)}
+        # the new attribute names must be free
+        taken = {n.attr for n in ast.walk(cls_node) if _is_self_attr(n) and isinstance(n.ctx, (ast.Store, ast.Del)) and id(n) not in drop_ids} | {st.name for st in cls_node.body if isinstance(st, (ast.FunctionDef, ast.AsyncFunctionDef)) and not any(st is d for d in droppable)}
+        if any(nm in taken for nm in name_of.values()):
+            continue
+        # every use has a known shape
+        plans = []  # (function, aliases)
+        for fn in [st for st in cls_node.body if isinstance(st, (ast.FunctionDef, ast.AsyncFunctionDef)) and not any(st is d for d in droppable)]:
+            par = {}
+            for p in ast.walk(fn):
+                for c in ast.iter_child_nodes(p):
+                    par[id(c)] = p
+            aliases = set()
+            for n in ast.walk(fn):
+                if isinstance(n, ast.Assign) and len(n.targets) == 1 and isinstance(n.targets[0], ast.Name) and _is_self_attr(n.value, X):
+                    aliases.add(n.targets[0].id)
+            for a in aliases:
+                binds = [n for n in ast.walk(fn) if isinstance(n, ast.Name) and n.id == a and isinstance(n.ctx, (ast.Store, ast.Del))]
+                if len(binds) != 1 or any(x.arg == a for x in ast.walk(fn) if isinstance(x, ast.arg)):
+                    bail = True
+            for n in ast.walk(fn):
+                is_rec = _is_self_attr(n, X) or (isinstance(n, ast.Name) and n.id in aliases and isinstance(n.ctx, ast.Load))
+                if not is_rec:
+                    continue
+                up = par.get(id(n))
+                if isinstance(up, ast.Attribute) and up.value is n and up.attr in fnames:
+                    continue  # self.X.f / alias.f  (load or store)
+                if isinstance(up, ast.Attribute) and up.value is n and up.attr == "_replace":
+                    call = par.get(id(up))
+                    asg = par.get(id(call))
+                    if isinstance(call, ast.Call) and call.func is up and not call.args and all(k.arg in fnames for k in call.keywords) and isinstance(asg, ast.Assign) and len(asg.targets) == 1 and _is_self_attr(asg.targets[0], X):
+                        continue
+                    bail = True
+                    continue
+                if isinstance(up, ast.Assign) and len(up.targets) == 1 and up.targets[0] is n:
+                    v = up.value
+                    if isinstance(v, ast.Call) and isinstance(v.func, ast.Name) and v.func.id in rnames and not any(isinstance(a, ast.Starred) for a in v.args) and all(k.arg in fnames for k in v.keywords) and len(v.args) <= len(fnames):
+                        continue
+                    if isinstance(v, ast.Call) and isinstance(v.func, ast.Attribute) and v.func.attr == "_replace" and _is_self_attr(v.func.value, X):
+                        continue
+                    bail = True
+                    continue
+                if isinstance(up, ast.Assign) and up.value is n and len(up.targets) == 1:
+                    t = up.targets[0]
+                    if isinstance(t, ast.Name) and t.id in aliases and _is_self_attr(n, X):
+                        continue
+                    if R["named"] and isinstance(t, (ast.Tuple, ast.List)) and len(t.elts) == len(fnames) and not any(isinstance(e, ast.Starred) for e in t.elts):
+                        continue
+                bail = True
+            plans.append((fn, aliases))
+        if bail:
+            continue
+
+        def field_ref(f, at, ctx):
+            return ast.copy_location(ast.Attribute(value=ast.copy_location(ast.Name(id="self", ctx=ast.Load()), at), attr=name_of[f], ctx=ctx), at)
+
+        class Rewrite(ast.NodeTransformer):
+            def __init__(self, aliases, fn):
+                self.aliases = aliases
+                # `a, b = self.X` with a, b bound nowhere else in the function: a and b ARE the fields
+                self.unpacked = {}
+                for n in ast.walk(fn):
+                    if isinstance(n, ast.Assign) and len(n.targets) == 1 and isinstance(n.targets[0], (ast.Tuple, ast.List)) and self.is_rec(n.value) and all(isinstance(e, ast.Name) for e in n.targets[0].elts):
+                        names = [e.id for e in n.targets[0].elts]
+                        once = all(len([x for x in ast.walk(fn) if isinstance(x, ast.Name) and x.id == nm and isinstance(x.ctx, (ast.Store, ast.Del))]) == 1 and not any(a.arg == nm for a in ast.walk(fn) if isinstance(a, ast.arg)) for nm in names)
+                        if once and len(names) == len(fnames):
+                            self.unpacked.update(dict(zip(names, fnames)))
+
+            def is_rec(self, n):
+                return _is_self_attr(n, X) or (isinstance(n, ast.Name) and n.id in self.aliases)
+
+            def visit_Name(self, node):
+                if isinstance(node.ctx, ast.Load) and node.id in self.unpacked:
+                    return field_ref(self.unpacked[node.id], node, ast.Load())
+                return node
+
+            def visit_Attribute(self, node):
+                if self.is_rec(node.value) and node.attr in fnames:
+                    return field_ref(node.attr, node, node.ctx)
+                return self.generic_visit(node)
+
+            def visit_Assign(self, node):
+                if len(node.targets) == 1 and _is_self_attr(node.targets[0], X):
+                    v = node.value
+                    pairs = []
+                    if isinstance(v.func, ast.Name):  # R(a, b, f=c)
+                        given = {}
+                        order = []
+                        for f, a in zip(fnames, v.args):
+                            given[f] = a
+                            order.append(f)
+                        for k in v.keywords:
+                            given[k.arg] = k.value
+                            order.append(k.arg)
+                        for f, d in R["fields"]:
+                            if f not in given:
+                                if d is None:
+                                    return node  # (a missing argument: TypeError at run time; leave it)
+                                given[f] = copy.deepcopy(d)
+                                order.append(f)
+                        pairs = [(f, self.visit(given[f])) for f in order]
+                    else:  # self.X._replace(f=v)
+                        pairs = [(k.arg, self.visit(k.value)) for k in v.keywords]
+                    return [ast.copy_location(ast.Assign(targets=[field_ref(f, node, ast.Store())], value=val, type_comment=None), node) for f, val in pairs] or ast.copy_location(ast.Pass(), node)
+                if len(node.targets) == 1 and isinstance(node.targets[0], ast.Name) and node.targets[0].id in self.aliases and _is_self_attr(node.value, X):
+                    return ast.copy_location(ast.Pass(), node)
+                if len(node.targets) == 1 and isinstance(node.targets[0], (ast.Tuple, ast.List)) and self.is_rec(node.value):
+                    if all(isinstance(e, ast.Name) and e.id in self.unpacked for e in node.targets[0].elts):
+                        return ast.copy_location(ast.Pass(), node)
+                    node.value = ast.copy_location(ast.Tuple(elts=[field_ref(f, node, ast.Load()) for f in fnames], ctx=ast.Load()), node)
+                    return node
+                return self.generic_visit(node)
+
+        for fn, aliases in plans:
+            Rewrite(aliases, fn).visit(fn)
+        cls_node.body = [st for st in cls_node.body if not any(st is d for d in droppable)]
+        for st in cls_node.body:
+            if isinstance(st, ast.Assign) and any(isinstance(t, ast.Name) and t.id == "__slots__" for t in st.targets) and isinstance(st.value, (ast.Tuple, ast.List)):
+                elts = []
+                for e in st.value.elts:
+                    if isinstance(e, ast.Constant) and e.value == X:
+                        elts.extend(ast.copy_location(ast.Constant(value=name_of[f]), e) for f in fnames)
+                    else:
+                        elts.append(e)
+                st.value.elts = elts
+        done.append("%s.%s" % (cls_node.name, X))
+    return done
+
+
+def denormalise_records(tree):
+    recs = _record_classes(tree)
+    if not recs:
+        return []
+    done = []
+    for st in tree.body:
+        if isinstance(st, ast.ClassDef) and st.name not in recs:
+            done += _denormalise_class(st, recs, tree)
+    if done:
+        ast.fix_missing_locations(tree)
+    return done
+
+
+# ---------------------------------------------------------------------------------------------------------------------
+# Value enums: a string / bool flag kept as a member of a private Enum is read as the value it stands for
+#
+#     class _Weight(enum.Enum): SUPPLY = "supply"; ...
+#     self._weight = _Weight(weight)          ->   self._weight = weight        (the membership check stays the caller's)
+#     self._weight.value                      ->   self._weight
+#     self._weight is _Weight.SUPPLY  / ==    ->   self._weight == "supply"
+#
+# only when every use of the attribute and of the enum in the module has one of these shapes.
+
+
+def _value_enums(tree):
+    out = {}
+    for st in tree.body:
+        if isinstance(st, ast.ClassDef) and st.name.startswith("_") and any((isinstance(b, ast.Name) and b.id in ("Enum", "StrEnum")) or (isinstance(b, ast.Attribute) and b.attr in ("Enum", "StrEnum")) for b in st.bases):
+            members = {}
+            ok = True
+            for b in st.body:
+                if isinstance(b, ast.Assign) and len(b.targets) == 1 and isinstance(b.targets[0], ast.Name) and isinstance(b.value, ast.Constant):
+                    members[b.targets[0].id] = b.value
+                elif isinstance(b, ast.Expr) and isinstance(b.value, ast.Constant):
+                    continue
+                else:
+                    ok = False
+            if ok and members and len({repr(v.value) for v in members.values()}) == len(members):
+                out[st.name] = members
+    return out
+
+
+def denormalise_enums(tree):
+    enums = _value_enums(tree)
+    done = []
+    if not enums:
+        return done
+    par = {}
+    for p in ast.walk(tree):
+        for c in ast.iter_child_nodes(p):
+            par[id(c)] = p
+
+    def member_of(n, E):
+        return isinstance(n, ast.Attribute) and isinstance(n.value, ast.Name) and n.value.id == E and n.attr in enums[E]
+
+    for E, members in enums.items():
+        # attributes holding a member:  self.X = E(expr)  /  self.X = E.MEMBER
+        attrs = set()
+        for n in ast.walk(tree):
+            if isinstance(n, ast.Assign) and len(n.targets) == 1 and _is_self_attr(n.targets[0]):
+                v = n.value
+                if (isinstance(v, ast.Call) and isinstance(v.func, ast.Name) and v.func.id == E and len(v.args) == 1 and not v.keywords) or member_of(v, E):
+                    attrs.add(n.targets[0].attr)
+        if not attrs:
+            continue
+        ok = True
+        for n in ast.walk(tree):
+            if isinstance(n, ast.Name) and n.id == E:
+                up = par.get(id(n))
+                if isinstance(up, ast.ClassDef):
+                    continue
+                if isinstance(up, ast.Call) and up.func is n:
+                    asg = par.get(id(up))
+                    if isinstance(asg, ast.Assign) and len(asg.targets) == 1 and _is_self_attr(asg.targets[0]) and asg.targets[0].attr in attrs:
+                        continue
+                if member_of(up, E):
+                    ctx = par.get(id(up))
+                    if isinstance(ctx, ast.Compare) and len(ctx.ops) == 1 and isinstance(ctx.ops[0], (ast.Is, ast.IsNot, ast.Eq, ast.NotEq)) and any(_is_self_attr(x) and x.attr in attrs for x in [ctx.left] + ctx.comparators):
+                        continue
+                    if isinstance(ctx, ast.Assign) and ctx.value is up and len(ctx.targets) == 1 and _is_self_attr(ctx.targets[0]) and ctx.targets[0].attr in attrs:
+                        continue
+                ok = False
+            if _is_self_attr(n) and n.attr in attrs:
+                up = par.get(id(n))
+                if isinstance(n.ctx, ast.Store):
+                    v = getattr(up, "value", None)
+                    if not (isinstance(up, ast.Assign) and ((isinstance(v, ast.Call) and isinstance(v.func, ast.Name) and v.func.id == E) or member_of(v, E))):
+                        ok = False
+                    continue
+                if isinstance(up, ast.Attribute) and up.value is n and up.attr == "value":
+                    continue
+                if isinstance(up, ast.Compare) and len(up.ops) == 1 and isinstance(up.ops[0], (ast.Is, ast.IsNot, ast.Eq, ast.NotEq)):
+                    other = [x for x in [up.left] + up.comparators if x is not n]
+                    if len(other) == 1 and member_of(other[0], E):
+                        continue
+                ok = False
+        if any(isinstance(n, ast.Attribute) and n.attr in attrs and not _is_self_attr(n) for n in ast.walk(tree)):
+            ok = False  # somebody else's attribute of that name
+        if not ok:
+            continue
+        # a two-state enum behind a bool property  p: return self.X is E.M   is the bool flag p
+        flag = {}  # attr -> (property name, member that means True, property node, class node)
+        if len(members) == 2:
+            for cls_node in [c for c in ast.walk(tree) if isinstance(c, ast.ClassDef)]:
+                for st in cls_node.body:
+                    if isinstance(st, ast.FunctionDef) and any(isinstance(d, ast.Name) and d.id == "property" for d in st.decorator_list):
+                        body = [b for b in st.body if not (isinstance(b, ast.Expr) and isinstance(b.value, ast.Constant))]
+                        if len(body) == 1 and isinstance(body[0], ast.Return) and isinstance(body[0].value, ast.Compare) and len(body[0].value.ops) == 1 and isinstance(body[0].value.ops[0], (ast.Is, ast.Eq)):
+                            c = body[0].value
+                            if _is_self_attr(c.left) and c.left.attr in attrs and member_of(c.comparators[0], E):
+                                only_member_stores = all(member_of(n.value, E) for n in ast.walk(tree) if isinstance(n, ast.Assign) and len(n.targets) == 1 and _is_self_attr(n.targets[0], c.left.attr))
+                                taken = any(_is_self_attr(n, st.name) and isinstance(n.ctx, ast.Store) for n in ast.walk(cls_node))
+                                if only_member_stores and not taken:
+                                    flag[c.left.attr] = (st.name, c.comparators[0].attr, st, cls_node)
+
+        def const(node, value):
+            return ast.copy_location(ast.Constant(value=value), node)
+
+        class Rewrite(ast.NodeTransformer):
+            def visit_Assign(self, node):
+                if len(node.targets) == 1 and _is_self_attr(node.targets[0]) and node.targets[0].attr in attrs:
+                    X = node.targets[0].attr
+                    v = node.value
+                    if X in flag:
+                        node.targets[0].attr = flag[X][0]
+                        node.value = const(v, v.attr == flag[X][1])
+                        return node
+                    node.value = self.visit(v.args[0]) if isinstance(v, ast.Call) else const(v, members[v.attr].value)
+                    return node
+                return self.generic_visit(node)
+
+            def visit_Attribute(self, node):
+                if node.attr == "value" and _is_self_attr(node.value) and node.value.attr in attrs and node.value.attr not in flag:
+                    return node.value
+                return self.generic_visit(node)
+
+            def visit_Compare(self, node):
+                sides = [node.left] + node.comparators
+                if len(node.ops) == 1 and any(_is_self_attr(x) and x.attr in attrs for x in sides) and any(member_of(x, E) for x in sides):
+                    me = next(x for x in sides if _is_self_attr(x) and x.attr in attrs)
+                    mem = next(x for x in sides if member_of(x, E))
+                    positive = isinstance(node.ops[0], (ast.Is, ast.Eq))
+                    if me.attr in flag:
+                        ref = ast.copy_location(ast.Attribute(value=me.value, attr=flag[me.attr][0], ctx=ast.Load()), me)
+                        same = (mem.attr == flag[me.attr][1]) == positive
+                        return ref if same else ast.copy_location(ast.UnaryOp(op=ast.Not(), operand=ref), node)
+                    return ast.copy_location(ast.Compare(left=me, ops=[ast.Eq() if positive else ast.NotEq()], comparators=[const(mem, members[mem.attr].value)]), node)
+                return self.generic_visit(node)
+
+        for X, (_p, _m, prop, cls_node) in flag.items():
+            cls_node.body = [st for st in cls_node.body if st is not prop]
+        Rewrite().visit(tree)
+        done.append("enum %s" % E)
+    if done:
+        ast.fix_missing_locations(tree)
+    return done
+
+
+# ---------------------------------------------------------------------------------------------------------------------
+# `while True:` with the exit test as its first statement is the loop with that test:
+#
+#     while True:                 ->   while C:
+#         if not C: break                  BODY
+#         BODY
+#
+# (no `else` clause on the loop; `continue` in BODY jumps to the test in both forms)
+
+
+def _negate(e):
+    if isinstance(e, ast.UnaryOp) and isinstance(e.op, ast.Not):
+        return e.operand
+    return ast.copy_location(ast.UnaryOp(op=ast.Not(), operand=e), e)
+
+
+def normalise_while_true(tree):
+    done = 0
+    for n in ast.walk(tree):
+        if isinstance(n, ast.While) and isinstance(n.test, ast.Constant) and n.test.value is True and not n.orelse and len(n.body) >= 2:
+            first = n.body[0]
+            if isinstance(first, ast.If) and not first.orelse and len(first.body) == 1 and isinstance(first.body[0], ast.Break):
+                n.test = _negate(first.test)
+                n.body = n.body[1:]
+                done += 1
     if done:
         ast.fix_missing_locations(tree)
     return done
